@@ -154,6 +154,8 @@ pub fn read_existing_dir(path: &Path) -> Result<Option<ReadDir<'_>>, Failed> {
 
 /// Creates all directories leading to the given directory or logs an error.
 pub fn create_dir_all(path: &Path) -> Result<(), Failed> {
+    #[cfg(feature = "verif-hooks")]
+    crate::verif::point("fs.create_dir_all", || path.display().to_string());
     fs::create_dir_all(path).map_err(|err| {
         error!(
             "Fatal: failed to create directory {}: {}",
@@ -185,6 +187,8 @@ pub fn create_parent_all(path: &Path) -> Result<(), Failed> {
 
 /// Removes a directory tree.
 pub fn remove_dir_all(path: &Path) -> Result<(), Failed> {
+    #[cfg(feature = "verif-hooks")]
+    crate::verif::point("fs.remove_dir_all", || path.display().to_string());
     if let Err(err) = fs::remove_dir_all(path) {
         if err.kind() != io::ErrorKind::NotFound {
             error!(
@@ -204,6 +208,8 @@ pub fn remove_dir_all(path: &Path) -> Result<(), Failed> {
 ///
 /// Ignores if the file doesn’t exist.
 pub fn remove_file(path: &Path) -> Result<(), Failed> {
+    #[cfg(feature = "verif-hooks")]
+    crate::verif::point("fs.remove_file", || path.display().to_string());
     if let Err(err) = fs::remove_file(path) {
         if err.kind() != io::ErrorKind::NotFound {
             error!(
@@ -236,6 +242,8 @@ pub fn remove_all(path: &Path) -> Result<(), Failed> {
 ///
 /// See ´std::fs::rename`` for the various ramifications.
 pub fn rename(source: &Path, target: &Path) -> Result<(), Failed> {
+    #[cfg(feature = "verif-hooks")]
+    crate::verif::point("fs.rename", || target.display().to_string());
     fs::rename(source, target).map_err(|err| {
         error!(
             "Fatal: failed to move {} to {}: {}",
@@ -286,6 +294,8 @@ pub fn open_existing_file(path: &Path) -> Result<Option<File>, Failed> {
 ///
 /// Create a file if it does not exist, and truncates it if it does.
 pub fn create_file(path: &Path) -> Result<File, Failed> {
+    #[cfg(feature = "verif-hooks")]
+    crate::verif::point("fs.create_file", || path.display().to_string());
     File::create(path).map_err(|err| {
         error!(
             "Fatal: failed to open file {}: {}",
@@ -340,6 +350,8 @@ pub fn read_existing_file(path: &Path) -> Result<Option<Vec<u8>>, Failed> {
 /// Errors out if the file cannot be opened for writing or writing fails.
 /// If the file exists, overwrites the current content.
 pub fn write_file(path: &Path, contents: &[u8]) -> Result<(), Failed> {
+    #[cfg(feature = "verif-hooks")]
+    crate::verif::point("fs.write_file", || path.display().to_string());
     fs::write(path, contents).map_err(|err| {
         error!(
             "Fatal: failed to write file {}: {}",
